@@ -15,6 +15,9 @@ def fv(width, cap=None):
         top = min(top, cap)
     if top <= 0:
         return st.just(0)
+    if top == 1 and width == 1:
+        # one-bit flags: callers pass 0/1 and, as naturally, False/True (bool is an int in range)
+        return st.sampled_from([0, 1, 0, 1, 0, 1, 0, 1, 0, 1, False, True])
     edges = {0, 1, top, top - 1}
     i = 0
     while (1 << i) <= top:
